@@ -169,7 +169,7 @@ def step (st : St) (op impl : List String) : St × String × Option String :=
     let sid := parseNat! sid
     let e := st.s.ep x
     let e' := read e sid
-    let new := (e'.rcv.rlog.drop e.rcv.rlog.length).map (·.2)
+    let new := (e'.rcv.rlog.drop e.rcv.rlog.length).map (·.1)
     let st := { st with s := st.s.step (.read x sid) }
     -- predicate on the implementation's result: `r=<ids> <eof|err|->`
     let p := st.side x
